@@ -69,7 +69,13 @@ def do_run(sid, checks):
     finally:
         sh('git worktree remove --force %s' % wt, cwd='/repo')
         sh('git worktree prune', cwd='/repo')
-    json.dump(results, open(os.path.join(d, 'detection.json'), 'w'), indent=1)
+    dp = os.path.join(d, 'detection.json')
+    if os.path.exists(dp) and len(results) < len(man['checks']):
+        # a partial rerun updates the rows it ran and keeps the others
+        old = json.load(open(dp))
+        old.update(results)
+        results = dict(sorted(old.items()))
+    json.dump(results, open(dp, 'w'), indent=1)
     print('caught by:', [c for c, r in results.items() if r['exit'] == 1], ' broken:', [c for c, r in results.items() if r['exit'] == 2])
 
 
